@@ -210,7 +210,7 @@ func (e *engine) runSchedules() {
 	nDocs, nMut := 200, 200 // per format
 	maxLen := 4096
 	if e.thorough {
-		nDocs, nMut = 1500, 1500
+		nDocs, nMut = 600, 600
 		maxLen = 16384
 	}
 	nDocs, nMut = nDocs*e.scale, nMut*e.scale
